@@ -766,6 +766,20 @@ func judgeInProcess(c *core.Ctx, cs caseSpec, res caseResult, selfLeft *selfBudg
 		if installed == "" || len(wrong) > 0 {
 			c.Violation("install-wrong-version", fmt.Sprintf("manifest %v (in this order) constraint %q (%s): expected one of %v to be installed; version directories before %v, after %v, contents %v",
 				in.Manifest, in.Constraint, in.Mode, acceptable, ir.Before, ir.After, ir.Contents), replay)
+			// whatever was installed instead is on disk now: keep the expected tree in step, so that
+			// the listing check below does not report the same mistake a second time
+			for _, v := range added {
+				found := false
+				for ti := range tree {
+					if tree[ti].Repo == in.Repo && tree[ti].Name == in.Name {
+						found = true
+						tree[ti].Versions = append(append([]string{}, tree[ti].Versions...), v)
+					}
+				}
+				if !found {
+					tree = append(tree, plugSpec{Repo: in.Repo, Name: in.Name, Versions: []string{v}})
+				}
+			}
 			continue
 		}
 		c.Count("inproc/install/selected_ok", 1)
